@@ -78,17 +78,66 @@ func panicDesc(p *Prog, pn *ssa.Panic) string {
 		}
 	}
 	if call, ok := v.(*ssa.Call); ok {
+		if f := call.Call.StaticCallee(); f != nil && (classifyExternal(f) == xErrorf || (f.Object() != nil && f.Object().Pkg() != nil && f.Object().Pkg().Path() == "fmt")) {
+			fmtc := ""
+			if len(call.Call.Args) > 0 {
+				if cs, ok := constString(call.Call.Args[0]); ok {
+					fmtc = fmt.Sprintf("%q", cs)
+				}
+			}
+			return "panic(" + f.Name() + "(" + fmtc + "))"
+		}
+	}
+	// an error value produced by a call
+	src := v
+	if ex, ok := src.(*ssa.Extract); ok {
+		src = ex.Tuple
+	}
+	if phi, ok := src.(*ssa.Phi); ok && len(phi.Edges) > 0 {
+		src = phi.Edges[0]
+		if ex, ok := src.(*ssa.Extract); ok {
+			src = ex.Tuple
+		}
+	}
+	if call, ok := src.(*ssa.Call); ok {
 		if f := call.Call.StaticCallee(); f != nil {
-			return "panic(" + f.Name() + "(...))"
+			switch classifyExternal(f) {
+			case xJsonMarshal:
+				return "panic(error of json.Marshal)"
+			case xUuidNew:
+				return "panic(error of uuid.NewRandom)"
+			}
+			if inSod(p, f) {
+				cl := closuresOf(p).Of(f)
+				if cl.Has(EFsWObj) && cl.Has(EFsWSchema) {
+					return "panic(error of a flush-and-commit call)"
+				}
+				return "panic(error of a package call)"
+			}
+			return "panic(error of " + f.Name() + ")"
 		}
 	}
 	return "panic(value)"
 }
 
+// ownerName: a rename-stable name for the place of a construct: the receiver type for methods, "goroutine" for
+// goroutine closures, else the function name.
+func ownerName(fn *ssa.Function) string {
+	if fn.Parent() != nil {
+		return "goroutine of " + ownerName(fn.Parent())
+	}
+	if fn.Signature.Recv() != nil {
+		if n := named(fn.Signature.Recv().Type()); n != nil {
+			return "(*" + n.Obj().Name() + ")"
+		}
+	}
+	return "func"
+}
+
 // ---- C19 ------------------------------------------------------------------------------
 
 func checkC19(p *Prog, r *Result, tier string) {
-	r.Rule("C19.R1", "explicit panics: every panic statement reachable from the API or the decoders has a disposition: documented (misuse of Assign targets), internal invariant with a stated reason, vetted by another rule, or known finding; any other panic is a violation", 15)
+	r.Rule("C19.R1", "explicit panics: every panic statement reachable from the API or the decoders has a disposition: documented (misuse of Assign targets), internal invariant with a stated reason, vetted by another rule, or known finding; any other panic is a violation", 12)
 	r.Rule("C19.R2", "unchecked type assertions on the data path (decoded file content, directory entries, search arguments) are either preceded by a comma-ok assertion of the same value and type, or vetted with a stated reason", 4)
 	r.Rule("C19.R3", "bounds: every index or slice expression on the data path that the gc compiler cannot prove in range (its own bounds-check-elimination pass is the oracle) is dominated by a length test of the same container, or vetted with a stated reason", 6)
 	r.Rule("C19.R4", "nullable decoded pointers are checked before use: the loader tests the decoded schema for nil; the decoders test the elements of the decoded field-index map and of the decoded entry slice for nil", 3)
@@ -109,23 +158,20 @@ func checkC19(p *Prog, r *Result, tier string) {
 	// R1
 	type disp struct{ kind, why string }
 	table := map[string]disp{
-		"AssignOne":                               {"documented", "the Assign target must be a *sod.Object (documented misuse)"},
-		"Assign":                                  {"documented", "the Assign target must be a *[]sod.Object (documented misuse)"},
-		"(*Schema).assignIndex":                   {"documented", "the AssignIndex target must be a slice pointer (documented misuse)"},
-		"(*Constraints).Transform":                {"documented", "only reachable with a pointer (&value); documented contract of the exported method"},
-		"(*FieldDescriptor).cast":                 {"internal", "an indexed struct field of an unsupported Go type: a property of the program's struct definition, not of data"},
-		"cloneValue":                              {"internal", "assignability of a value to its own type: cannot fail for values produced by reflect.ValueOf"},
-		"jsonOrPanic":                             {"internal", "serialisation of an object that already passed the serialisation check (C06: ok(SERIALISE)) or of a descriptor"},
-		"pJsonOrPanic":                            {"internal", "debug helper"},
-		"uuidOrPanic":                             {"internal", "entropy source failure"},
-		"(*indexedField).valueTypeString":         {"vetted", "values reach it only through the constructor's normalisation or the decoder's validation against the cast (C02.R3, C19.R2)"},
-		"(*indexedField).equal":                   {"vetted", "see valueTypeString; classes of both operands are compared first (C02.R4)"},
-		"(*indexedField).less":                    {"vetted", "see valueTypeString; classes of both operands are compared first (C02.R4)"},
-		"(*indexedField).evaluate":                {"vetted", "the operator is validated against the same literal set by every caller (C12.R2)"},
-		"(*fieldIndex).Delete":                    {"known", "F9f: a schema whose field index has the right size but foreign object ids panics on delete/update"},
-		"(*DB).startAsyncWritesRoutine$1":         {"known", "F9g: a storage error during a background flush panics (the API has no channel for background errors)"},
+		`func/panic("target type must be a *sod.Object")`:           {"documented", "the Assign target must be a *sod.Object (documented misuse)"},
+		`func/panic("target type must be *[]sod.Object")`:           {"documented", "the Assign target must be a *[]sod.Object (documented misuse)"},
+		`(*Schema)/panic("target must be a slice pointer")`:         {"documented", "the AssignIndex target must be a slice pointer (documented misuse)"},
+		`(*Constraints)/panic("interface must be a pointer")`:      {"documented", "only reachable with a pointer (&value); documented contract of the exported method"},
+		`(*FieldDescriptor)/panic(Sprintf("unkwnown type to cast %s"))`: {"internal", "an indexed struct field of an unsupported Go type: a property of the program's struct definition, not of data"},
+		`func/panic(Sprintf("%s is not assignable to %s"))`:         {"internal", "assignability of a value to its own type: cannot fail for values produced by reflect.ValueOf"},
+		`func/panic(error of json.Marshal)`:                         {"internal", "OrPanic helper: serialisation of an object that already passed the serialisation check (C06: ok(SERIALISE)) or of a descriptor"},
+		`func/panic(error of uuid.NewRandom)`:                       {"internal", "entropy source failure"},
+		`(*` + a.IndexedField.Obj().Name() + `)/panic(Errorf("%w %T"))`: {"vetted", "class invariant: values reach the comparators only through the constructor's normalisation or the decoder's validation against the cast (C02.R3, C19.R2); classes of both operands are compared first (C02.R4)"},
+		`(*` + a.IndexedField.Obj().Name() + `)/panic(ErrUnkownSearchOperator)`: {"vetted", "the operator is validated against the same literal set by every caller (C12.R2)"},
+		`(*` + a.FieldIndex.Obj().Name() + `)/panic("key not found")`:           {"known", "F9f: a schema whose field index has the right size but foreign object ids panics on delete/update"},
+		`(*` + a.FieldIndex.Obj().Name() + `)/panic("object id not found")`:     {"known", "F9f: a schema whose field index has the right size but foreign object ids panics on delete/update"},
+		`goroutine of (*DB)/panic(error of a flush-and-commit call)`: {"known", "F9g: a storage error during a background flush panics (the API has no channel for background errors)"},
 	}
-	seenFn := map[string]bool{}
 	var fnames []string
 	for f := range reachable {
 		fnames = append(fnames, FuncName(f))
@@ -143,29 +189,40 @@ func checkC19(p *Prog, r *Result, tier string) {
 				if !ok {
 					continue
 				}
+				owner := ownerName(f)
 				construct := panicDesc(p, pn)
-				d, ok := table[name]
-				seenFn[name] = true
+				d, ok := table[owner+"/"+construct]
 				switch {
 				case !ok:
-					r.Report("C19.R1", name, construct, Violated, "a panic statement reachable from the API / the decoders without a disposition: if it can be triggered by file content or arguments it must be an error", p.Pos(in.Pos()), nil, true)
+					r.Report("C19.R1", owner, construct, Violated, "a panic statement (in "+name+") reachable from the API / the decoders without a disposition: if it can be triggered by file content or arguments it must be an error", p.Pos(in.Pos()), nil, true)
 				case d.kind == "known":
-					r.Report("C19.R1", name, construct, Violated, d.why, p.Pos(in.Pos()), nil, true)
+					r.Report("C19.R1", owner, construct, Violated, d.why+" (in "+name+")", p.Pos(in.Pos()), nil, true)
 				default:
-					r.Report("C19.R1", name, construct, Discharged, d.kind+": "+d.why, p.Pos(in.Pos()), nil, true)
+					r.Report("C19.R1", owner, construct, Discharged, d.kind+": "+d.why, p.Pos(in.Pos()), nil, true)
 				}
 			}
 		}
 	}
 
 	// R2
-	vettedAssert := map[string]string{
-		"(*indexedField).equal":     "operand classes are equal (C02.R4) and values are normalised / validated (C02.R3, decoder)",
-		"(*indexedField).less":      "operand classes are equal (C02.R4) and values are normalised / validated (C02.R3, decoder)",
-		"(*iterator).object":        "reflect.New of the object's own type implements Object",
-		"(*Constraints).transform":  "guarded by Kind()==String; a named string type is a property of the struct definition",
-		"ToObjectSlice":             "documented helper contract",
-		"ToObjectChan$1":            "documented helper contract",
+	vettedAssertOf := func(f *ssa.Function) string {
+		switch {
+		case recvIs(f, a.IndexedField) && len(paramTypes(f)) == 1 && named(f.Signature.Params().At(0).Type()) == a.IndexedField && strings.Join(resultTypes(f), ",") == "bool":
+			return "operand classes are equal (C02.R4) and values are normalised / validated (C02.R3, decoder)"
+		case recvIs(f, a.Iterator) && len(paramTypes(f)) == 0 && strings.Join(resultTypes(f), ",") == "sod.Object":
+			return "reflect.New of the object's own type implements Object"
+		case f == p.FuncByName(named(a.FIConstraints.Type()).Obj().Name()+".transform"):
+			return "guarded by Kind()==String; a named string type is a property of the struct definition"
+		case f.Name() == "ToObjectSlice" || (f.Parent() != nil && f.Parent().Name() == "ToObjectChan"):
+			return "documented helper contract"
+		}
+		return ""
+	}
+	vettedAssert := map[string]string{}
+	for _, name := range fnames {
+		if why := vettedAssertOf(byName[name]); why != "" {
+			vettedAssert[name] = why
+		}
 	}
 	for _, name := range fnames {
 		f := byName[name]
@@ -204,13 +261,37 @@ func checkC19(p *Prog, r *Result, tier string) {
 	if err != nil {
 		r.Report("C19.R3", "-", "compiler bounds-check listing", Undecided, err.Error(), "", nil, false)
 	}
-	vettedBounds := map[string]string{
-		"uuidExt#0":                         "strings.SplitN with n=2 returns at least one element (element 0)",
-		"(*Search).one#0":                   "the result has at least one entry (Len()>0 checked) and collect returned without error with limit 1",
-		"(*Constraints).recursiveTransform#0": "strings.Split returns at least one element; the tail is taken only when len>1",
-		"camelToSnake":                    "index i ranges over the string, i+1 is guarded by i < len-1",
+	vettedBoundsOf := func(f *ssa.Function, in ssa.Instruction, cont ssa.Value, constIdx string) string {
+		// element 0 of what strings.Split / SplitN returned
+		if constIdx == "0" {
+			src := cont
+			if call, ok := src.(*ssa.Call); ok {
+				if g := call.Call.StaticCallee(); g != nil && g.Object() != nil && g.Object().Pkg() != nil && g.Object().Pkg().Path() == "strings" && (g.Name() == "Split" || g.Name() == "SplitN") {
+					return "strings.Split/SplitN return at least one element (element 0)"
+				}
+			}
+			if f == p.FuncByName("Search.one") {
+				return "the result has at least one entry (Len()>0 checked) and collect returned without error with limit 1"
+			}
+			if recvIs(f, named(a.FIConstraints.Type())) && strings.Join(paramTypes(f), ",") == "[]string,reflect.Value" {
+				return "the path comes from strings.Split (at least one element); the tail is taken only when len>1"
+			}
+		}
+		if f.Signature.Recv() == nil && sigIs(f, "string", "string") && f.Name() != "" {
+			// rune-wise string conversion: index i ranges over the string, i+1 is guarded by i < len-1
+			for _, b := range f.Blocks {
+				for _, i2 := range b.Instrs {
+					if bo, ok := i2.(*ssa.BinOp); ok && bo.Op == token.LSS {
+						if b2, ok := bo.Y.(*ssa.BinOp); ok && b2.Op == token.SUB {
+							return "index i ranges over the string, i+1 is guarded by i < len-1"
+						}
+					}
+				}
+			}
+		}
+		return ""
 	}
-	internalBounds := "(*fieldIndex)."
+	internalBounds := "(*" + a.FieldIndex.Obj().Name() + ")."
 	unproven := 0
 	for _, name := range fnames {
 		f := byName[name]
@@ -243,20 +324,21 @@ func checkC19(p *Prog, r *Result, tier string) {
 				}
 				unproven++
 				construct := fmt.Sprintf("index of %s", shortVal(cont))
-				vkey := name
+				constIdx := ""
 				if ia, ok := in.(*ssa.IndexAddr); ok {
 					if cst, ok := ia.Index.(*ssa.Const); ok && cst.Value != nil {
 						construct = fmt.Sprintf("index [%s] of %s", cst.Value.String(), shortVal(cont))
-						vkey = name + "#" + cst.Value.String()
+						constIdx = cst.Value.String()
 					}
 				}
+				vetted := vettedBoundsOf(f, in, cont, constIdx)
 				switch {
 				case lenGuarded(in, cont):
 					r.Report("C19.R3", name, construct, Discharged, "dominated by a length test of the same container", p.Pos(in.Pos()), nil, true)
 				case strings.HasPrefix(name, internalBounds) && !strings.Contains(name, "UnmarshalJSON"):
 					r.Report("C19.R3", name, construct, Discharged, "internal: position arithmetic on the index itself (bisection / shifting); not judged (C02 not-decided clause)", p.Pos(in.Pos()), nil, false)
-				case vettedBounds[vkey] != "":
-					r.Report("C19.R3", name, construct, Discharged, "vetted: "+vettedBounds[vkey], p.Pos(in.Pos()), nil, true)
+				case vetted != "":
+					r.Report("C19.R3", name, construct, Discharged, "vetted: "+vetted, p.Pos(in.Pos()), nil, true)
 				case !data[f]:
 					r.Report("C19.R3", name, construct, Discharged, "not on the data path", p.Pos(in.Pos()), nil, false)
 				default:
